@@ -445,6 +445,23 @@ example : exFile.ok = true ∧ exFile.store.map (·.1) = [9, 31, 71, 206] ∧
 example : getobj exFile.store ((exFile.ents.map (fun e => Section.table (e.map (fun p => ((p.1 : Int), p.2))))).reverse) 3 =
     .ok (.plain 30) := by decide
 
+/-- `SecLists` DERIVED for cross-reference streams: the section written as ANY non-overlapping `/Index`
+ranges, widths and rows (free rows and rows of unknown type anywhere) answers like the writer's entry list
+as soon as its in-use rows are that list (any order). -/
+theorem C02_stream_lists (ranges : List (Nat × Nat)) (w1 w2 w3 : Nat) (rows : List Row) (ents : List (Nat × Entry))
+    (hf : ∀ row ∈ rows, FitsRow w1 w2 w3 row) (hlen : sumCounts ranges ≤ rows.length)
+    (h : streamListsB ranges rows ents = true) :
+    SecLists (.stream ⟨ranges, w1, w2, w3, encodeRows w1 w2 w3 rows⟩) ents := by
+  intro n
+  have hrow : rowEntry = specRowEntry := funext C02_row_types
+  simp only [Section.getPos]
+  rw [C02_xrefstm_entry ranges w1 w2 w3 rows hf hlen n, hrow]
+  exact rowSpec_lists ranges rows ents hlen h n
+
+/-- `/Index [0 2 5 2]`, rows free / direct@15 / member 1 of stream 5 / direct@90: three in-use rows. -/
+example : streamListsB [(0, 2), (5, 2)] [(0, 0, 255), (1, 15, 0), (2, 5, 1), (1, 90, 0)]
+    [(6, ⟨none, 90, 0⟩), (1, ⟨none, 15, 0⟩), (5, ⟨some 5, 1, 0⟩)] = true := by decide
+
 /-! ## Termination of the line loops, and the body scan -/
 
 /-- `PDFXRef.load` terminates within one iteration per byte: the fuel of the model is never
